@@ -50,10 +50,13 @@ func (p *prop) Run(line string) core.Outcome {
 		if len(f) == 3 {
 			return runSite(line, f[1], f[2])
 		}
-	case "adapt":
+	case "adapt", "madapt":
+		// madapt: the text is a token-level MUTATION; values the mutation made meaningless and
+		// that a module's own Provision rejects are tagged, not reported (structural
+		// invalidity of the output still is)
 		if len(f) == 2 {
-			if t, err := core.UnHex(f[1]); err == nil {
-				return runAdapt(line, t)
+			if t, err := core.UnHex(f[1]); err == nil && core.Hex(t) == f[1] {
+				return runAdapt(line, t, f[0] == "madapt")
 			}
 		}
 	case "perm":
@@ -142,7 +145,7 @@ func firstDiff(a, b []byte) string {
 	return fmt.Sprintf("at byte %d: …%s… vs …%s…", i, a[lo:ha], b[lo:hb])
 }
 
-func runAdapt(line, text string) core.Outcome {
+func runAdapt(line, text string, mutated bool) core.Outcome {
 	o := core.Outcome{Impl: "oracle-only"}
 	r := checkTotalDet(line, text, &o)
 	if r.timedOut || r.panicked {
@@ -153,7 +156,7 @@ func runAdapt(line, text string) core.Outcome {
 		return o
 	}
 	o.Tags = append(o.Tags, "adapt:accepted")
-	checkValid(line, text, r.json, &o)
+	checkValid(line, text, r.json, mutated, &o)
 	return o
 }
 
@@ -176,7 +179,7 @@ func errTag(err error) string {
 	return "rej:other"
 }
 
-func checkValid(line, text string, js []byte, o *core.Outcome) {
+func checkValid(line, text string, js []byte, lenient bool, o *core.Outcome) {
 	v := validate(js)
 	switch {
 	case v.skipped != "":
@@ -184,12 +187,16 @@ func checkValid(line, text string, js []byte, o *core.Outcome) {
 	case v.ok:
 		o.Tags = append(o.Tags, "valid:ok")
 	default:
-		cls, env := classifyInvalid(v)
-		if env {
+		cls, kind := classifyInvalid(v)
+		if kind == "env" {
 			o.Tags = append(o.Tags, "valid:env-"+cls)
 			return
 		}
-		o.Tags = append(o.Tags, "valid:FAIL")
+		if kind == "semantic" && lenient {
+			o.Tags = append(o.Tags, "valid:value-rejected-by-provision")
+			return
+		}
+		o.Tags = append(o.Tags, "valid:FAIL-"+kind)
 		o.Failures = append(o.Failures, core.Failure{Case: line, Class: "invalid-output:" + cls,
 			What: fmt.Sprintf("accepted Caddyfile whose JSON fails %s: %s; input %q", v.stage, clip(v.msg, 300), clip(text, 400))})
 	}
